@@ -69,6 +69,24 @@ def inj_unknown_in_fstring(base):
     return _pos(base, "derive {zq = f\"a{zzc}b{zzq_unknown}c\"}")
 
 
+def inj_unknown_in_fstring_escapes(base):
+    # escape sequences in the same literal, before and after the interpolation: the text the parser re-reads is
+    # shorter than the source text
+    return _pos(base, "derive {zq = f\"a\\t\\t{zzc}\\n{zzq_unknown}\\t\\\\x\"}")
+
+
+def inj_unknown_in_fstring_after_escapes(base):
+    return _pos(base, "derive {zq = f\"{zzq_unknown}\\t\\t\\u{41}{zzc}\"}")
+
+
+def inj_unknown_in_sstring_escapes(base):
+    return _pos(base, "derive {zq = s\"REGEXP_REPLACE({zzq_unknown}, '\\\\s+\\\\d', '')\"}")
+
+
+def inj_unknown_in_fstring_quotes(base):
+    return _pos(base, "derive {zq = f'it\\'s {zzc} \"q\" {zzq_unknown}'}")
+
+
 def inj_unknown_in_join_cond(base):
     return _pos(base, "join zzj = [{zk = 1}] (zzq_unknown == zzj.zk)")
 
@@ -111,6 +129,8 @@ def inj_ml_bad_join_side(base):
 
 
 INJECTIONS = {
+    "unknown_in_fstring_escapes": inj_unknown_in_fstring_escapes, "unknown_in_fstring_after_escapes": inj_unknown_in_fstring_after_escapes,
+    "unknown_in_sstring_escapes": inj_unknown_in_sstring_escapes, "unknown_in_fstring_quotes": inj_unknown_in_fstring_quotes,
     "unknown_in_tuple": inj_unknown_in_tuple, "unknown_in_case": inj_unknown_in_case, "unknown_in_sstring": inj_unknown_in_sstring, "unknown_in_fstring": inj_unknown_in_fstring,
     "unknown_in_join_cond": inj_unknown_in_join_cond, "unknown_in_group_body": inj_unknown_in_group_body, "unknown_in_named_arg": inj_unknown_in_named_arg,
     "unknown_in_func_arg": inj_unknown_in_func_arg, "unknown_in_sort": inj_unknown_in_sort, "type_error_via_param": inj_type_error_via_param,
